@@ -1,7 +1,7 @@
 """Generators of class histories (dom="meta"; see implmeta.py / Lean MetaCase)."""
 import itertools
 
-KEYS = ["m", "n", "s", "c", "p", "__init__", "_q"]
+KEYS = ["m", "n", "s", "c", "p", "__init__", "_q", "__call__", "register"]    # (the last two: names that also exist on the metaclass)
 
 
 def op(kind, **kw):
